@@ -18,6 +18,9 @@ REQUIRED_THEOREMS = [
     "TapkeeVerif.Connected.k_raised_only_if_needed",
     "TapkeeVerif.Connected.findNeighbors_terminates",
     "TapkeeVerif.Connected.decision_order_independent",
+    "TapkeeVerif.Connected.result_order_independent",
+    "TapkeeVerif.Connected.C03_geodesic_matrix_finite",
+    "TapkeeVerif.Connected.stronglyConnected_sound",
 ]
 METHODS = ["brute", "vptree", "covertree"]
 # the Dijkstra of routines/isomap.hpp opens an OpenMP region per call; thread count is C15's subject, not C03's
